@@ -228,8 +228,45 @@ def _work(ctx: Ctx, item):
         spy.remove()
 
 
+def _sibling_filters(ctx: Ctx, item):
+    """Every definition of a multi-definition PGN, delivered the way the bus delivers it (frame by frame for fast-packet PGNs), to a decoder
+    that excludes ONE OTHER definition of the PGN by id: the message is still returned as its own definition."""
+    from nmea2000.decoder import NMEA2000Decoder
+    from .. import gen, wire
+    pgn, = item
+    db = canboat.db()
+    ds = [d for d in db.by_pgn[pgn] if d.supported]
+    n = 0
+    for d in ds:
+        bp, bn, _ = gen.benign_payload(d)
+        if db.select(pgn, bp) is not d or bn > 223 or (not d.fast and bn > 8):
+            continue
+        payload = bp.to_bytes(bn, "little")
+        dest = 255 if ((pgn >> 8) & 0xFF) >= 240 else 7
+        for sib in ds:
+            if sib is d or sib.id == d.id:
+                continue
+            dec = NMEA2000Decoder(exclude_pgns=[sib.id])
+            r = None
+            try:
+                frames = wire.segment(payload, (d.index + sib.index) % 8) if d.fast else [payload]
+                for fr in frames:
+                    r = dec.decode_tcp(wire.ebyte(wire.ident(pgn, 1, dest, 3), fr))
+            except Exception as e:
+                r = e
+            ctx.count()
+            n += 1
+            if r is None or isinstance(r, Exception) or r.id != d.id:
+                ctx.report(f"C08|sibling-excluded|{pgn}", f"{d.key} delivered frame by frame to a decoder that excludes the sibling '{sib.id}' by id came back as "
+                           f"{'nothing' if r is None else repr(r) if isinstance(r, Exception) else r.id}",
+                           {"pgn": pgn, "sibling_filter": [d.key, sib.id]})
+    ctx.nontrivial_extra += n
+    ctx.klass("sibling_excluded_by_id_cases", n)
+
+
 def run(ctx: Ctx):
     db = canboat.db()
+    pmap(ctx, _sibling_filters, [(p,) for p, ds_ in db.by_pgn.items() if len(ds_) > 1])
     multi = [pgn for pgn, ds in db.by_pgn.items() if len(ds) > 1]
     ctx.notes["multi_definition_pgns"] = len(multi)
     pair_limit = 2500 if ctx.quick else 250000
@@ -239,6 +276,11 @@ def run(ctx: Ctx):
 
 
 def replay(ctx: Ctx, case):
+    if "sibling_filter" in case:
+        sub = Ctx(ctx.pid)
+        sub.known_open = {}
+        _sibling_filters(sub, (case["pgn"],))
+        return [(b, v["what"], v["case"]) for b, v in sub.found.items()]
     from nmea2000.decoder import NMEA2000Decoder
     from nmea2000.encoder import NMEA2000Encoder
     db = canboat.db()
